@@ -1,5 +1,6 @@
 import ZbossModel.Proofs.RxLog
 import ZbossModel.Props.C05
+import ZbossModel.Generated.Exprs
 /-! # C06 - each accepted data frame is acknowledged once, with its own sequence number
 
 `session h st chunks` is the model of feeding `chunks` one by one to `data_received`
@@ -53,5 +54,10 @@ example : (session (fun _ => true) { transport := true }
       [[0x00, 0xDE], [0xDE, 0xAD, 0x0c, 0x00, 0x06, 0xc8, 0xe9, 0x31, 0xa4, 0x00, 0x00, 0x02],
        [0x00, 0x01, 0xDE, 0xAD, 0x05, 0x00, 0x06, 0x11, 0xc0]]).2.length = 2 := by
   rw [C06_log_shape]; decide +kernel
+
+/-- **source tie (translator 4)**: how the receiver takes the sequence number out of a data frame's flags and
+    how `Frame.ack` puts it into the acknowledgement - translated from the Python ast on every run - are the model's -/
+theorem C06_source_exprs (seq flags : Nat) :
+    Gen.packSeqOfFlagsExpr flags = (flags &&& Gen.flagPacketSeq) >>> 2 ∧ Gen.ackFlagSeqExpr seq = seq <<< 4 := ⟨rfl, rfl⟩
 
 end Zboss.Rx
